@@ -190,9 +190,13 @@ def handle (j : Json) : Json :=
     | .ok _ => Json.mkObj [("out", Json.mkObj [("ok", Json.null)])]
     | .error e => Json.mkObj [("out", e.toJson)]
   | some "http" =>
-    match httpLayer (httpOfJson (getField j "http")) with
-    | .ok _ => Json.mkObj [("out", Json.mkObj [("ok", Json.null)])]
-    | .error e => Json.mkObj [("out", e.toJson)]
+    let h := httpOfJson (getField j "http")
+    let info := httpErrorInfo h
+    let extra : List (String × Json) := [("status", (info.status : Nat)), ("cimerror", optStrJ info.cimerror),
+      ("pg", info.hasPGErrorDetail), ("basic", basicOffered h)]
+    match httpLayer h with
+    | .ok _ => Json.mkObj ([("out", Json.mkObj [("ok", Json.null)])] ++ extra)
+    | .error e => Json.mkObj ([("out", e.toJson)] ++ extra)
   | _ => Json.mkObj [("bad", "op")]
 
 def main : IO Unit := runDriver handle
